@@ -355,7 +355,7 @@ def _run_j(case):
     facts.append('X:executor-never-proceeded')
     res, tret = 'hang', 0
   return {'res': res, 't': tret, 'facts': facts, 'interval_used': case['interval'] if case['interval'] is not None
-          else ec.ORIG_JOIN_INTERVAL * U, 'outcome': out['tokens'][0] if out['tokens'] else '?'}
+          else ec.ORIG_JOIN_INTERVAL * U, 'outcome': ' '.join(out['tokens'][:2]) if out['tokens'] and 'BROKEN' in out['tokens'][0] else (out['tokens'][0] if out['tokens'] else '?')}
 
 
 def _run_g(case):
